@@ -310,6 +310,15 @@ FoldedNeg(e) == e.k = "un" /\ e.v[1] = "-" /\ e.c[1].k = "num"       \* Constant
 NotMember(e) == e.k = "un" /\ e.v[1] = "not" /\ e.c[1].k = "cmp" /\ Len(e.c[1].v) = 1
                 /\ e.c[1].v[1] \in {"in", "not in", "is", "is not"}       \* ConstantFolding._handle_NotNode
 
+\* ConstantFolding._handle_NotNode works bottom-up: the node the writer sees in place of a chain of `not`s
+\* ("not not (a in b)" is "a in b")
+RECURSIVE CFNot(_)
+CFNot(e) == IF e.k = "un" /\ e.v[1] = "not"
+            THEN LET c == CFNot(e.c[1]) IN
+                 IF c.k = "cmp" /\ Len(c.v) = 1 /\ c.v[1] \in {"in", "not in", "is", "is not"}
+                 THEN N("cmp", <<NegOp(c.v[1])>>, c.c) ELSE N("un", <<"not">>, <<c>>)
+            ELSE e
+
 \* The writer keeps a stack of precedences; pr is its top when the node is visited.  operator_enter(p) parenthesises when
 \* pr > p and pushes p; visit_operand(x, q) pushes q around the visit of x; self.visit(x) alone leaves the stack as it is
 \* (items of displays, subscripts, slice bounds, call arguments inherit pr).
@@ -344,7 +353,9 @@ PI(e, pr) ==
     [] e.k = "opq" -> <<A(EllipsisLeaf)>>                               \* visit_Node with allow_unknown_nodes
     \* emit_number: a literal whose text starts with "-" is written under operator_enter(unop_precedence["-"])
     [] e.k = "un" -> IF FoldedNeg(e) THEN Enter(pr, 11, <<T("-"), A(e.c[1])>>)
-                     ELSE IF NotMember(e) THEN PI(N("cmp", <<NegOp(e.c[1].v[1])>>, e.c[1].c), pr)
+                     ELSE IF e.v[1] = "not"
+                          THEN LET f == CFNot(e) IN
+                               IF f.k = "cmp" THEN PI(f, pr) ELSE Enter(pr, 3, <<T("not")>> \o PI(f.c[1], 3))
                      ELSE Enter(pr, CyPrec(e), <<T(e.v[1])>> \o PI(e.c[1], CyPrec(e)))
     \* visit_BinopNode (= visit_BoolBinopNode): the operand on the non-associative side is visited with prec + 1
     [] e.k = "bin" -> LET p == CyPrec(e)
@@ -512,8 +523,17 @@ Compare == /\ Room(2)
            /\ \E op \in CmpOps : /\ (op \in {"is", "is not"} => ~CTyped(Top(1)) /\ ~CTyped(Top(0)))
                                 /\ Reduce(2, N("cmp", <<op>>, <<Top(1), Top(0)>>))
 \* (a chain with two adjacent constant operands is rewritten by ConstantFolding into a different, not always
-\*  value-equal expression: a matter of constant folding, not of signatures -- left out of the family)
-ChainCmp == /\ Room(3) /\ ~(Closed(Top(2)) /\ Closed(Top(1))) /\ ~(Closed(Top(1)) /\ Closed(Top(0)))
+\*  value-equal expression ("K < 1 == 1" becomes "K < 1"): a matter of constant folding, not of signatures -- left out
+\*  of the family, also when an operand only becomes a constant by folding ("K < (1 or K) == 1", "(1 if 1 else K) < 1 < K");
+\*  MayConst over-approximates "folds to a constant")
+RECURSIVE MayConst(_)
+MayConst(x) == \/ Closed(x)
+               \/ x.k \in {"un", "attr"} /\ MayConst(x.c[1])
+               \/ x.k = "bin" /\ MayConst(x.c[1]) /\ MayConst(x.c[2])
+               \/ x.k = "bool" /\ MayConst(x.c[1])
+               \/ x.k = "cond" /\ MayConst(x.c[2]) /\ (MayConst(x.c[1]) \/ MayConst(x.c[3]))
+               \/ x.k = "cmp" /\ \A i \in 1..Len(x.c) : MayConst(x.c[i])
+ChainCmp == /\ Room(3) /\ ~(MayConst(Top(2)) /\ MayConst(Top(1))) /\ ~(MayConst(Top(1)) /\ MayConst(Top(0)))
             /\ \E o1 \in ChainOps, o2 \in ChainOps : Reduce(3, N("cmp", <<o1, o2>>, <<Top(2), Top(1), Top(0)>>))
 Cond == /\ Room(3) /\ "cond" \in CtorSet /\ Top(2).k # "tuple" /\ Top(0).k # "tuple" /\ ~CTuple(Top(1))
         /\ Reduce(3, N("cond", <<>>, <<Top(2), Top(1), Top(0)>>))
